@@ -41,9 +41,66 @@ TRUSTED = ("translate/py2lean.py (T1 translator, ~900 lines of Python: the readi
            "translate/SEMANTICS.md) and its runtime Model.PyRt / Model.PyInt")
 
 
+X = py2lean.External
+BITFUN_EXTERNALS = {
+    # functions of ppci/utils/bitfun.py that relocation bodies call; translated in Gen.Py_bitfun
+    "wrap_negative": X("Gen.Py_bitfun.wrap_negative", "bitfun", ["int", "int"], "int", "PpciVerif.Gen.Py_bitfun"),
+    "align": X("Gen.Py_bitfun.align", "bitfun", ["int", "int"], "int", "PpciVerif.Gen.Py_bitfun"),
+    "inrange": X("Gen.Py_bitfun.inrange", "bitfun", ["int", "int"], "bool", "PpciVerif.Gen.Py_bitfun"),
+}
+
+MODULES["riscv_relocations"] = dict(
+    relpath="ppci/arch/riscv/relocations.py", lean_name="Py_riscv_relocations", externals=BITFUN_EXTERNALS,
+    functions=["BImm12Relocation.calc", "BImm20Relocation.apply", "Abs32Imm20Relocation.apply", "RelImm20Relocation.apply",
+               "Abs32Imm12Relocation.calc", "RelImm12Relocation.calc", "AbsAddr32Relocation.apply"],
+)
+
+
+MODULES["rvc_relocations"] = dict(
+    relpath="ppci/arch/riscv/rvc_relocations.py", lean_name="Py_rvc_relocations", externals=BITFUN_EXTERNALS,
+    functions=["CBImm11Relocation.apply", "CBlImm11Relocation.apply", "apply_cool_mapping", "BcImm11Relocation.apply",
+               "BcImm8Relocation.apply"],
+)
+
+
+def _ir2py_helper_text():
+    """the text that `IrToPythonCompiler.generate_builtins` of the checked tree EMITS for its arithmetic
+    helpers (correct / idiv / irem / ishl / ishr), dedented to module level"""
+    import textwrap
+    from . import c24
+    return textwrap.dedent("\n".join(c24.helper_lines())) + "\n"
+
+
+MODULES["ir2py_helpers"] = dict(
+    relpath="ppci/lang/python/ir2py.py:generate_builtins(emitted text)", lean_name="Py_ir2py_helpers",
+    functions=["correct", "idiv", "irem", "ishl", "ishr"], text=_ir2py_helper_text,
+)
+
+
 def regen(ctx, key):
     m = MODULES[key]
-    path, changed = py2lean.regen(common.REPO, m["relpath"], m["functions"], m["lean_name"], m.get("records"))
+    if "text" in m:
+        path, changed = py2lean.regen_text(m["text"](), m["relpath"], m["functions"], m["lean_name"], m.get("records"))
+    else:
+        path, changed = py2lean.regen(common.REPO, m["relpath"], m["functions"], m["lean_name"], m.get("records"),
+                                      m.get("externals"))
     ctx.extra_cov.setdefault("t1_translated", {})[m["relpath"]] = {
         "functions": m["functions"], "gen": f"PpciVerif/Gen/{m['lean_name']}.lean", "rewritten": bool(changed)}
     return changed
+
+
+# everything the relocation theorems (Props/C10T1, C11T1) import
+RELOC_KEYS = ["bitfun", "riscv_relocations", "rvc_relocations"]
+
+
+def regen_many(ctx, keys):
+    """regenerate several modules; translate ALL of them before reporting the first refusal, so that one
+    untranslatable source does not leave the other Gen files stale"""
+    first = None
+    for k in keys:
+        try:
+            regen(ctx, k)
+        except py2lean.Untranslatable as e:
+            first = first or e
+    if first is not None:
+        raise first
